@@ -334,6 +334,8 @@ pub fn run(cfg: &Cfg, rep: &mut Report) {
     Op::SkipLast(100_000),
     Op::Sample(Box::new(Chain::new(Src::Never, vec![]))),
     Op::Buffer(Box::new(Chain::new(Src::Never, vec![]))),
+    // a debounce longer than the producer's period: a value is always pending, nothing gets through
+    Op::Debounce(50),
   ];
   let side = [
     Op::Merge(Box::new(Chain::new(Src::Of(V::I(1)), vec![]))),
